@@ -609,7 +609,7 @@ WMPT = dict(
          "histories in generator modes plain/shared/dirty/again/all and checkpoint-commit-rollback scenarios; all rotated over three key "
          "universes (prefix universe, 4-nibble 0/1 window at the head / tail of the key); one trace event per storage write element; reopen from (root, weight) after every commit, gc "
          "and rollback; distinct_nontrivial = distinct operation-kind signatures of whole histories",
-    summary_keys=["commits", "gcs", "owner_observations", "rollbacks", "distinct_nodes", "generator_modes", "go_histories", "panics"],
+    summary_keys=["commits", "gcs", "owner_observations", "rollbacks", "copyroot_forks", "distinct_nodes", "generator_modes", "go_histories", "panics"],
     ops_of=_wmpt_ops,
     assumptions=["storage = in-memory StorageAdapter with atomic batches (Pebble itself is not exercised)",
                  "weight is a function of the value (length of the value's part before '#')",
